@@ -97,7 +97,7 @@ Definition wf_adm (s : adm) : Prop :=
 
 (* ---- BasicEventElement: max_interval is not applicable for direction = input; last_update
    is given in UTC (class docstring) *)
-Definition wf_bee (s : bee) : Prop := (bin s = true -> bmax s = false) /\ blast s <> UOther.
+Definition wf_bee (s : bee) : Prop := (bin s = true -> bmax s = PNone) /\ blast s <> UOther.
 
 (* ---- category: a NameType; AASd-090 for data elements.  The SDK exempts File and Blob
    (submodel.py DataElement._set_category); the text of AASd-090 does not. *)
